@@ -1,7 +1,18 @@
 (* Tie/C19.v — executable glue of the C19 correspondence check (no theorems). *)
-From Coq Require Import List QArith Qabs Bool Arith.
+From Coq Require Import List QArith Qabs Bool Arith ZArith Uint63.
 From FDAV Require Import Base.Num Base.Vec Base.Cmp Model.Simul.
 Import ListNotations.
+
+(* cheap exact float literals: +/- m * 2^e with m a primitive 63-bit integer (a
+   double's mantissa has 53 bits).  Unary/binary positive literals of 16 digits cost
+   ~2 ms each to elaborate; primitive integers cost nothing. *)
+Definition qof (neg : bool) (m : int) (e : Z) : Q :=
+  let z := Uint63.to_Z m in
+  let z := if neg then Z.opp z else z in
+  match e with
+  | Zneg p => Qred (Qmake z (Pos.shiftl 1 (Npos p)))
+  | _ => Qmake (Z.shiftl z e) 1
+  end.
 
 Definition nats_eq (a b : list nat) : bool := all2 Nat.eqb a b.
 Definition labels_eq (n k : nat) (impl : list nat) : bool := nats_eq (labels n k) impl.
